@@ -41,7 +41,7 @@ var c05Clocks = []string{"bugs-edit", "bugs-create", "other-clock"}
 func genC05(t *rapid.T) c05Case {
 	c := c05Case{Seed: rapid.Uint64().Draw(t, "seed")}
 	c.Backend = rapid.SampledFrom([]string{"gogit", "gogit", "gogit", "mock"}).Draw(t, "backend")
-	kinds := []string{"inc", "wit", "new", "edit", "edit", "read", "peerjump", "peeredit", "peeredit", "pull", "pull", "reopen", "delclocks"}
+	kinds := []string{"inc", "wit", "new", "edit", "edit", "read", "peerjump", "peeredit", "peeredit", "pull", "pull", "reopen", "delclocks", "push", "peersync"}
 	if c.Backend == "mock" {
 		kinds = []string{"inc", "wit", "wit", "new", "edit", "edit", "read"}
 	}
@@ -81,6 +81,18 @@ func genC05(t *rapid.T) c05Case {
 		}
 		if tail[1].Kind == "edit" {
 			tail[1].Ops = rapid.SliceOfN(GenOpSpec(3, 0), 1, 2).Draw(t, "wops")
+		}
+		if rapid.Bool().Draw(t, "foreignMerge") {
+			// the subject fast-forwards to a merge commit made by the peer (the highest time of the bug sits on a
+			// commit without operations), then writes
+			k := rapid.IntRange(0, 5).Draw(t, "mbug")
+			mid = append(mid,
+				c05Action{Kind: "edit", Bug: k, Ops: rapid.SliceOfN(GenOpSpec(3, 0), 1, 2).Draw(t, "mops1")},
+				c05Action{Kind: "push"},
+				c05Action{Kind: "peeredit", Bug: k, Ops: rapid.SliceOfN(GenOpSpec(3, 0), 1, 2).Draw(t, "mops2")},
+				c05Action{Kind: "peersync"},
+				c05Action{Kind: "pull"},
+				c05Action{Kind: "edit", Bug: k, Ops: rapid.SliceOfN(GenOpSpec(3, 0), 1, 2).Draw(t, "mops3")})
 		}
 		out := append([]c05Action(nil), c.Actions[:at]...)
 		out = append(out, mid...)
@@ -348,6 +360,29 @@ func runC05(tb report.TB, rep *report.Reporter, c c05Case) {
 			}
 			if err != nil {
 				tb.Fatalf("harness: peer: %v", err)
+			}
+		case "push":
+			if err := w.Push(subject); err != nil {
+				if ee, ok := err.(*ExecError); ok {
+					if fail("push/"+ee.Sig, ee.Detail) {
+						return
+					}
+				}
+				tb.Fatalf("harness: %v", err)
+			}
+		case "peersync":
+			// the peer merges what the subject published (a merge commit when both edited the same bug) and publishes the result
+			peer := w.Replicas[1]
+			if _, err := w.Pull(peer); err != nil {
+				if ee, ok := err.(*ExecError); ok {
+					if fail("peer-pull/"+ee.Sig, ee.Detail) {
+						return
+					}
+				}
+				tb.Fatalf("harness: %v", err)
+			}
+			if err := w.Push(peer); err != nil {
+				tb.Fatalf("harness: peer push: %v", err)
 			}
 		case "pull":
 			if _, err := w.Pull(subject); err != nil {
